@@ -20,6 +20,10 @@ func main() {
 		cmdFuncs(os.Args[2:])
 	case "check":
 		cmdCheck(os.Args[2:])
+	case "ssa":
+		cmdSSA(os.Args[2:])
+	case "c13gen":
+		cmdC13Gen(os.Args[2:])
 	default:
 		fmt.Fprintln(os.Stderr, "unknown command", os.Args[1])
 		os.Exit(2)
